@@ -4,3 +4,4 @@ import SmtpV.Props.C04
 #print axioms SmtpV.Props.C04.C04_reply_syntax_multiline
 #print axioms SmtpV.Props.C04.C04_one_reply_per_command
 #print axioms SmtpV.Props.C04.C04_error_reply_and_notice
+#print axioms SmtpV.Props.C04.C04_lmtp_one_reply_per_recipient
